@@ -402,7 +402,7 @@ func (h *Handler) HandleGetDirSize(ctx *Context, path string) (int64, error) {
 
 	var size int64
 	// detach afero.Lstater interface to resolve symlinks in afero.Walk.
-	_ = afero.Walk(&fsOnly{h.Fs}, ".", func(path string, info fs.FileInfo, err error) error {
+	_ = afero.Walk(&fsOnly{h.Fs}, path, func(path string, info fs.FileInfo, err error) error {
 		if err != nil {
 			log.WarnContext(ctx, "Skipping path because of error",
 				slog.String("path", path), logutil.ErrorAttr(err))
